@@ -27,8 +27,19 @@
 #include "scanner.h"
 #include "strvec.h"
 
+#ifdef DRV_CXX
+/* C++ variant: the configuration lives inside a libconfig::Config object owned by harness/drvxx.cc; the C
+   operations of this file act on that object's config_t, so both APIs see the same data */
+FILE *out;
+config_t *drv_cfgp;
+#define cfg (*drv_cfgp)
+extern void xx_new_config(void);
+extern void xx_delete_config(void);
+extern int xx_op(int n, char **tok);        /* returns 1 if it handled the line */
+#else
 static FILE *out;
 static config_t cfg;
+#endif
 static int live = 0;
 
 /* ---- event buffer (printed after the R line of the op during which they happened) ---- */
@@ -62,7 +73,12 @@ static int hv(int c)
   return 0;
 }
 /* "-" -> NULL ; "h<hex>" -> malloc'd NUL-terminated string (length in *len) */
+#ifdef DRV_CXX
+char *parse_hs(const char *tok, size_t *len);
+char *parse_hs(const char *tok, size_t *len)
+#else
 static char *parse_hs(const char *tok, size_t *len)
+#endif
 {
   if(tok[0] != 'h') { if(len) *len = 0; return NULL; }
   size_t n = strlen(tok + 1) / 2;
@@ -72,7 +88,12 @@ static char *parse_hs(const char *tok, size_t *len)
   if(len) *len = n;
   return r;
 }
+#ifdef DRV_CXX
+void put_hs(const char *s);
+void put_hs(const char *s)
+#else
 static void put_hs(const char *s)
+#endif
 {
   if(!s) { fputc('-', out); return; }
   fputc('h', out);
@@ -97,7 +118,11 @@ static double bits_to_double(uint64_t b) { double d; memcpy(&d, &b, 8); return d
 static uint64_t double_to_bits(double d) { uint64_t b; memcpy(&b, &d, 8); return b; }
 
 /* ---- handles: index path from the root ---- */
+#ifdef DRV_CXX
+config_setting_t *resolve(const char *tok)
+#else
 static config_setting_t *resolve(const char *tok)
+#endif
 {
   config_setting_t *s = cfg.root;
   if(!strcmp(tok, ".")) return s;
@@ -132,7 +157,11 @@ static void put_path_of(const config_setting_t *s)
   if(n == 0) { fputc('.', out); return; }
   for(int i = n - 1; i >= 0; i--) fprintf(out, "%d%s", idx[i], i ? "/" : "");
 }
+#ifdef DRV_CXX
+void put_node(const config_setting_t *s)
+#else
 static void put_node(const config_setting_t *s)
+#endif
 {
   fputc('n', out);
   if(!s) fputc('-', out); else put_path_of(s);
@@ -559,7 +588,11 @@ static int run_line(char *line)
   if(n == 1 && IS("dump")) { dump(); return 0; }
   if(n == 2 && IS("case"))
   {
+#ifdef DRV_CXX
+    if(live) { xx_delete_config(); live = 0; }
+#else
     if(live) { config_destroy(&cfg); live = 0; }
+#endif
     evlen = 0;
     strings_ok = 1;
     if(thread_loc) { uselocale(LC_GLOBAL_LOCALE); freelocale(thread_loc); thread_loc = (locale_t)0; free(thread_name); thread_name = NULL; }
@@ -569,10 +602,27 @@ static int run_line(char *line)
   }
   if(n == 1 && IS("init"))
   {
-    config_init(&cfg); live = 1; r_unit(); return 0;
+#ifdef DRV_CXX
+    if(live) xx_delete_config();
+    xx_new_config();
+#else
+    config_init(&cfg);
+#endif
+    live = 1; r_unit(); return 0;
   }
   if(n == 1 && IS("clear")) { config_clear(&cfg); r_unit(); return 0; }
+#ifdef DRV_CXX
+  if(n == 1 && IS("destroy")) { xx_delete_config(); live = 0; r_unit(); return 0; }
+  if(c[0] == 'x')
+  {
+    rec_io = !strncmp(c, "xread", 5);     /* Config::readString / readFile: files opened and closed are logged */
+    int handled = xx_op(n, tok);
+    rec_io = 0;
+    if(handled) return 0;
+  }
+#else
   if(n == 1 && IS("destroy")) { config_destroy(&cfg); live = 0; r_unit(); return 0; }
+#endif
   if(n == 2 && IS("options")) { config_set_options(&cfg, (int)parse_num(tok[1])); r_unit(); return 0; }
   if(n == 3 && IS("option")) { config_set_option(&cfg, (int)parse_num(tok[1]), (int)parse_num(tok[2])); r_unit(); return 0; }
   if(n == 2 && IS("getoption")) { r_int(config_get_option(&cfg, (int)parse_num(tok[1]))); return 0; }
@@ -1011,7 +1061,11 @@ int main(int argc, char **argv)
   }
   free(line);
   fclose(sf);
+#ifdef DRV_CXX
+  if(live) xx_delete_config();
+#else
   if(live) config_destroy(&cfg);
+#endif
   free(evbuf);
   for(size_t i = 0; i < handed_n; i++) free(handed_tab[i].copy);
   free(handed_tab);
